@@ -27,3 +27,13 @@ def run(ctx):
     ctx.replay(behs, pre, observe, ordered=True, label="edges")
     walks = ctx.gen_walks("MCNode", "C09_walk.cfg", num=100 if q else 5000, depth=45)
     ctx.replay(walks, pre, observe, ordered=True, label="walks")
+    # "each received frame is handled by at most one service": the silent SDO cases (segments inside a download
+    # block, start / end of a block upload) only exist inside block transfers, which the node model's minimal SDO
+    # server does not contain; a slice of the SDO alphabet model (CoSsdoGen) is replayed with the unclaimed-frame
+    # callback observed
+    import sdo_alpha, sdo_common
+    objs = sdo_common.model_dict("MCSsdoGen", "MCDict")
+    sb = ctx.gen_edges("MCSsdoGen", "C04_genq.cfg", timeout=3000)
+    sb = common.thin(sb, 2500 if q else 20000, ctx.seed)
+    ctx.replay(sb, common.wrap(sdo_alpha.preamble_for(objs)), sdo_common.observe, variant="h0", defines=sdo_alpha.VARIANTS["h0"], ordered=True, label="sdo_claimed_frames")
+VARIANTS = {"default": (), "h0": ("CO_VERIF_SDO_BUF_SEG=3",)}
